@@ -5,7 +5,7 @@
    l1of o / l2of o = sparsity / ridge coefficient (0 when None), qp_f / qp_grad (Base/RSum.v) the
    penalised objective  v'Gv/2 - b'v + l1 sum v + l2 sum v^2  and its gradient. *)
 From Coq Require Import List Arith Reals Lra QArith Qabs.
-From TLV Require Import Base.Ops Base.Tensor Base.RSum Model.Nnls Proofs.NnlsProofs Proofs.NnlsProofsFista Proofs.NnlsProofsAset Proofs.NnlsProofsAsetCert Proofs.NnlsProofsExamples.
+From TLV Require Import Base.Ops Base.Tensor Base.RSum Model.Nnls Proofs.NnlsProofs Proofs.NnlsProofsFista Proofs.NnlsProofsAset Proofs.NnlsProofsAsetCert Proofs.NnlsProofsAsetFull Proofs.NnlsProofsExamples.
 Import ListNotations.
 Open Scope R_scope.
 
@@ -39,6 +39,15 @@ Theorem C13_hals_loop_ge_eps : forall (UtM UtU : list (list R)) (r n : nat) (o :
   forall i j, (i < r)%nat -> (j < n)%nat -> h_eps o <= mget Rops (hals_loop Rops UtM UtU n o tol fuel true 0 V) i j.
 Proof. exact loop_ge_eps. Qed.
 Print Assumptions C13_hals_loop_ge_eps.
+
+(* the loop with its decision trace (used by the correspondence to see whether a stopping decision was clear-cut)
+   computes the loop's result, and hals_nnls is `reject or loop from the start`, for any field *)
+Theorem C13_hals_trace_is_loop : forall (F : Type) (Op : fops F) UtM UtU n V0 sol iters tol o,
+  hals_nnls Op UtM UtU n V0 sol iters tol o =
+  if hals_rejects Op UtM UtU iters o then Err
+  else Ok (snd (hals_trace Op UtM UtU n o tol iters true (f0 Op) (match V0 with Some V => V | None => hals_init Op UtM UtU n sol end))).
+Proof. exact @hals_nnls_trace. Qed.
+Print Assumptions C13_hals_trace_is_loop.
 
 (* (ii) one HALS pass (hence any number, hence the loop) never increases the penalised objective of any column *)
 Theorem C13_hals_pass_monotone : forall (UtM UtU : list (list R)) (r n : nat) (o : @hopts R),
@@ -215,37 +224,72 @@ Theorem C13_fista_fixed_point_optimal : forall (UtM UtU : list (list R)) (r n : 
 Proof. exact fista_fixed_point_optimal. Qed.
 Print Assumptions C13_fista_fixed_point_optimal.
 
-(* REFUTED: "when fista leaves its loop through the stopping rule the point is (nearly) stationary".  The rule is
-   |sum(x - x_new)| < tol * norm_0: the SIGNED sum, which vanishes on a step whose entries sum to zero.  With all
-   parameters at their defaults (x0 = 0, lr = 1/sigma_max = 1/3, tol = 1e-8, no penalties; epsilon = 0) on
-   UtU = [[2,1],[1,2]], UtM = (6,3) the loop stops after two iterations -- whatever the rest of the momentum sequence
-   and the budget -- at (7/3, 2/3), where the gradient is (-2/3, 2/3) and the projected step moves to (23/9, 4/9);
-   the optimum (3, 0) is a fixed point with zero gradient.  The float64 implementation returns (2.333, 0.667) on this
-   input (known finding fista_stop_rule_signed_sum).  Executed at the rational instance of the model. *)
-Theorem C13_fista_stop_rule_refuted :
-  exists (UtM UtU x0 y : list (list Q)) (lr tol : Q),
-  (forall (b : Q) (rest : list Q), fista Qops UtM UtU 1 true 0%Q 0%Q lr tol 0%Q x0 (0%Q :: b :: rest) = y) /\
-  fista_grad Qops UtM UtU 1 0%Q 0%Q y = [[-2 # 3]; [2 # 3]]%Q /\
-  fista_new Qops UtM UtU 1 true 0%Q 0%Q lr 0%Q y = [[23 # 9]; [4 # 9]]%Q /\
-  fista_new Qops UtM UtU 1 true 0%Q 0%Q lr 0%Q [[3]; [0]]%Q = [[3]; [0]]%Q /\
-  fista_grad Qops UtM UtU 1 0%Q 0%Q [[3]; [0]]%Q = [[0]; [0]]%Q.
-Proof. exists fw_UtM, fw_UtU, [[0]; [0]]%Q, [[7 # 3]; [2 # 3]]%Q, (1 # 3)%Q, fw_tol. exact fista_stop_rule_witness. Qed.
-Print Assumptions C13_fista_stop_rule_refuted.
+(* the stopping quantity of the repaired code (/repo f4b2876), norm = sum |x - x_new|, bounds EVERY entry of the step:
+   when `norm < tol * norm_0` fires every coordinate moved by less than tol * norm_0 (the signed sum of the old
+   code bounded nothing, see the regression Example below) *)
+Theorem C13_fista_stop_rule_bounds_step : forall (r n : nat) (x xn : list (list R)) (i j : nat),
+  wfm r n x -> wfm r n xn -> (i < r)%nat -> (j < n)%nat ->
+  Rabs (mget Rops x i j - mget Rops xn i j) <= fista_nrm Rops x xn.
+Proof. exact fista_nrm_bounds_step. Qed.
+Print Assumptions C13_fista_stop_rule_bounds_step.
 
-(* PARTIAL (hypothesis: tol = 0): then the rule never fires and fista returns the full iterate of its budget (the
-   protocol under which the harness runs fista to convergence); the fixed-point theorems above say what a
-   stationary iterate is *)
-Theorem C13_fista_tol0_partial : forall (UtM UtU : list (list R)) (n : nat) (nonneg : bool) (sp rd lr eps : R)
+(* with tol = 0 the rule never fires and fista returns the full iterate of its budget (the protocol under which the
+   harness runs fista to convergence, and the meaning of "k-th iterate" in the correspondence) *)
+Theorem C13_fista_tol0_runs_all : forall (UtM UtU : list (list R)) (n : nat) (nonneg : bool) (sp rd lr eps : R)
   (betas : list R) (first : bool) (norm0 : R) (x xu : list (list R)),
   fista_loop Rops UtM UtU n nonneg sp rd lr 0 eps betas first norm0 x xu = fista_run UtM UtU n nonneg sp rd lr eps betas x xu.
 Proof. exact fista_tol0_runs_all. Qed.
-Print Assumptions C13_fista_tol0_partial.
+Print Assumptions C13_fista_tol0_runs_all.
+
+Theorem C13_fista_trace_is_loop : forall (F : Type) (Op : fops F) UtM UtU n nonneg sp rd lr tol eps betas first norm0 x xu,
+  snd (fista_trace Op UtM UtU n nonneg sp rd lr tol eps betas first norm0 x xu) =
+  fista_loop Op UtM UtU n nonneg sp rd lr tol eps betas first norm0 x xu.
+Proof. exact @fista_trace_snd. Qed.
+Print Assumptions C13_fista_trace_is_loop.
+
+(* regression of the former stopping-rule defect: UtU = [[2,1],[1,2]], UtM = (6,3), every parameter at its default
+   (lr = 1/3, tol = 1e-8, x0 = 0; epsilon = 0).  After two iterations the point is (7/3, 2/3) and the step was
+   (-1/3, 1/3): signed sum 0 (the old rule stopped here, far from the optimum (3, 0)), l1 norm 2/3; a run of three
+   iterations moves on to (23/9, 4/9).  Executed at the rational instance. *)
+Example C13_fista_stop_rule_regression :
+  fista Qops fw_UtM fw_UtU 1 true 0%Q 0%Q (1 # 3)%Q fw_tol 0%Q [[0]; [0]]%Q [0%Q] = [[2]; [1]]%Q /\
+  fista Qops fw_UtM fw_UtU 1 true 0%Q 0%Q (1 # 3)%Q fw_tol 0%Q [[0]; [0]]%Q [0%Q; 0%Q] = [[7 # 3]; [2 # 3]]%Q /\
+  fista_nrm Qops [[2]; [1]]%Q [[7 # 3]; [2 # 3]]%Q = (2 # 3)%Q /\
+  fista Qops fw_UtM fw_UtU 1 true 0%Q 0%Q (1 # 3)%Q fw_tol 0%Q [[0]; [0]]%Q [0%Q; 0%Q; 0%Q] = [[23 # 9]; [4 # 9]]%Q /\
+  fista_new Qops fw_UtM fw_UtU 1 true 0%Q 0%Q (1 # 3)%Q 0%Q [[3]; [0]]%Q = [[3]; [0]]%Q /\
+  fista_grad Qops fw_UtM fw_UtU 1 0%Q 0%Q [[3]; [0]]%Q = [[0]; [0]]%Q.
+Proof. exact fista_stop_rule_witness. Qed.
 
 (* ---------------------------------------------------------------------------------------------- *)
 (*  active_set_nnls                                                                                *)
 (* ---------------------------------------------------------------------------------------------- *)
-(* PARTIAL (hypothesis named below): exit certificate, for an abstract tl.solve satisfying its contract (every
-   equation of the block system holds) and ANY rounding function of the interpolation step.  Whenever the loop is
+(* FULL: exact arithmetic (the rounding function of the interpolation step is the identity), abstract tl.solve
+   satisfying its contract (every equation of the block system holds), cold start or ANY non-negative warm start of
+   the problem's length, every budget and tolerance.  Whenever active_set_nnls leaves its loop through the
+   termination test (flag true of active_set_run; active_set_nnls is its first component) the returned point
+   satisfies the KKT conditions within tol, certified by the final passive set p:  x >= 0, (Utm - UtU x)_i = 0 on
+   p, x_i = 0 and (Utm - UtU x)_i <= tol off p.  (With C13_kkt_optimal and tol = 0: a global minimiser.)
+   The proof shows that the inner loop `for i in range(len(passive_set))` always ends with a non-negative support
+   vector within its budget: every interpolation step keeps x >= 0, never adds an index to the passive set and removes
+   the index attaining alpha (put exactly on the bound by the code repaired in dadc3ff), so the number of passive
+   indices strictly decreases.  Nothing is claimed when n_iter_max runs out (flag false) or an exception escapes. *)
+Theorem C13_active_set_exit_kkt :
+  forall (solve : list (list R) -> list R -> option (list R))
+         (Utm : list R) (UtU : list (list R)) (tol : R) (x0 : option (list R)) (n_iter_max : nat) (y : list R),
+  length UtU = length Utm -> (forall i, (i < length Utm)%nat -> length (nth i UtU []) = length Utm) ->
+  (forall A b ps, solve A b = Some ps -> Forall2 (fun row bi => dot Rops row ps = bi) A b) ->
+  match x0 with Some x => length x = length Utm /\ Forall (fun v => 0 <= v) x | None => True end ->
+  active_set_run Rops solve (fun v => v) Utm UtU tol x0 n_iter_max = Some (y, true) ->
+  exists p, length p = length Utm /\
+    forall i, (i < length Utm)%nat ->
+      0 <= nth i y 0 /\
+      (nth i p true = true -> nth i (gradient Rops Utm UtU y) 0 = 0) /\
+      (nth i p true = false -> nth i y 0 = 0 /\ nth i (gradient Rops Utm UtU y) 0 <= tol).
+Proof. exact active_set_exit_kkt_full. Qed.
+Print Assumptions C13_active_set_exit_kkt.
+
+(* PARTIAL (hypothesis named below): the same certificate under ANY rounding function of the interpolation step
+   (floating point), for an abstract tl.solve satisfying its contract.  Whenever the loop is
    left through its termination test (flag true of active_set_run; active_set_nnls is its first component), the
    returned point is clip(s, 0) for the support vector s of the final passive set p, and -- HYPOTHESIS: s is
    non-negative (this is what the inner loop establishes unless its budget runs out; not proved here) and p has the
